@@ -222,6 +222,30 @@ func runOnceRaw(id int, m *xpath.Machine, failAt int, trace bool) (rr RunResult)
 	return
 }
 
+// runCancelled: one run whose caller's Go context is cancelled before the run (k = 0) or inside the k-th callback
+func runCancelled(m *xpath.Machine, k int) (o runOutcome) {
+	defer func() {
+		if r := recover(); r != nil {
+			o.pan = r
+		}
+	}()
+	gc, cancel := context.WithCancel(context.Background())
+	defer cancel()
+	if k == 0 {
+		cancel()
+	}
+	res := xpath.NewCtxFromCurrent(gc, m, &xpm.Entry{T: &xpm.Tree{CancelAt: k, Cancel: cancel}}).Run()
+	o.hasErr = res.GetError() != nil
+	_, e1 := res.GetBoolResult()
+	_, e2 := res.GetLiteralResult()
+	_, e3 := res.GetNumResult()
+	o.hasValue = e1 == nil && e2 == nil && e3 == nil
+	if (e1 == nil) != (e2 == nil) || (e2 == nil) != (e3 == nil) {
+		o.pan = "accessors disagree on value-vs-error"
+	}
+	return
+}
+
 func sameCalls(a, b []xpm.Call) bool {
 	if len(a) != len(b) {
 		return false
@@ -434,6 +458,25 @@ func replay(args []string) {
 						o.Mism = append(o.Mism, Mism{"fault-error", want, rf.Err})
 					} else if !strings.Contains(rf.BErr, want) {
 						o.Mism = append(o.Mism, Mism{"fault-accessor", want, rf.BErr})
+					}
+				}
+			}
+			if *faults {
+				// the caller's Go context cancelled before the run (k = 0) or inside the k-th callback: still a value or an error
+				for k := 0; k <= len(v.Calls); k++ {
+					if nHangs >= maxHangs {
+						break
+					}
+					var co runOutcome
+					kk := k
+					if watchdog(func() { co = runCancelled(m, kk) }) {
+						o.Mism = append(o.Mism, Mism{"hang", "the run returns", fmt.Sprintf("Run with the context cancelled at callback %d did not return within 30 s", k)})
+						continue
+					}
+					if co.pan != nil {
+						o.Mism = append(o.Mism, Mism{"fault-panic", fmt.Sprintf("cancel-%d", k), fmt.Sprint(co.pan)})
+					} else if co.hasErr == co.hasValue {
+						o.Mism = append(o.Mism, Mism{"fault-neither", fmt.Sprintf("a value or an error (context cancelled at callback %d)", k), fmt.Sprintf("error=%v value=%v", co.hasErr, co.hasValue)})
 					}
 				}
 			}
